@@ -4,6 +4,8 @@ import logging
 import os
 import random
 import shutil
+import subprocess
+import sys
 
 from .c11 import Lit, calc_id, observe, set_threads
 from .common import Case, coq_bool, coq_json, coq_list, coq_nat, exn_name, scratch_dir
@@ -17,8 +19,10 @@ MISMATCHES = "mismatches_C12"
 VIOLATIONS = "violations_C12"
 KNOWN = "known_C12"
 SHARD = 70
-RULE = ("actor scripts over {Project(); open_job(sp).init(); open_job(sp).doc[k]=v; open_job(sp).doc(); len(project)} "
-        "(same job / different jobs / reader vs writer of one document / listing vs initialisers), from an empty project "
+RULE = ("actor scripts over {Project(); open_job(sp).init(); open_job(sp).doc[k]=v; open_job(sp).doc(); project.doc[k]=v; "
+        "project.doc(); len(project)} "
+        "(same job / different jobs / reader vs writer of one job document or of the project document / listing vs "
+        "initialisers), from an empty project "
         "(no workspace directory yet) and from a populated one, run as FORKED PROCESSES under a lock-step scheduler: "
         "every stat / open / listdir / mkdir / write / close / rename / unlink of an actor below the workspace blocks "
         "on a pipe until granted, one schedule = one sequence of actor indices at file-system-call granularity.  "
@@ -27,7 +31,11 @@ RULE = ("actor scripts over {Project(); open_job(sp).init(); open_job(sp).doc[k]
         "footprints, justified by Proc.exec_diamond) — exhaustive in thorough up to the stated cap per script pair, a "
         "seeded sample of the frontier in quick; 3 actors: sampled.  One case per run: realised schedule, every "
         "actor's values read or exception, final tree / listing / check() through a fresh Project.  JSON thread support "
-        "on (default) everywhere; switched off for the same-job initialisation race (replay of the refutation witness). "
+        "explicitly on everywhere; switched off for the same-job initialisation race (replay of the refutation witness); "
+        "CONFIGURATION AS SHIPPED (the flags `import signac` leaves in a fresh interpreter of the tree under test, nothing "
+        "toggled by the harness; the model is the documented temp-file protocol) for the document writer/reader pairs, "
+        "there WITHOUT reduction: every interleaving of the two processes' calls, i.e. the reader at every file-system "
+        "step of the writer, and for a sample of the other scripts. "
         "non-trivial: at least two calls of different actors on comparable paths are adjacent in the schedule; distinct by "
         "(scripts, realised schedule)")
 TRUSTED = [
@@ -42,10 +50,38 @@ ASSUMPTIONS = ["each job document has at most one writing actor (the property's 
                "reads of .signac/config and of the state point cache during Project() are not scheduling points"]
 
 WSN, SPF, DOCF = "workspace", "signac_statepoint.json", "signac_job_document.json"
+PDOCF = "signac_project_document.json"
 SP1, SP2, SP3, SPX = {"a": 1}, {"a": 2}, {"b": "z"}, {"x": 0}
 KIND = {"stat": "SgStat", "ropen": "SgRead", "listdir": "SgListdir", "mkdir": "SgMkdir", "open": "SgOpen",
         "write": "SgWrite", "close": "SgClose", "rename": "SgRename", "unlink": "SgUnlink", "rmdir": "SgRmdir"}
 MUTATING = {"SgMkdir", "SgOpen", "SgWrite", "SgRename", "SgUnlink", "SgRmdir"}
+
+
+# ------------------------------------------------------------------ configuration
+_CLASSES = ("signac.JSONDict", "cj.JSONAttrDict", "cj.BufferedJSONAttrDict", "cj.JSONDict", "cj.BufferedJSONDict", "_StatePointDict")
+_SHIPPED = []
+
+
+def shipped_threads():
+    """Thread-support flags of the JSON classes exactly as `import signac` leaves them in a FRESH interpreter of
+    the tree under test (the harness process itself has toggled them for other scenarios)."""
+    if not _SHIPPED:
+        code = ("import json, signac\nfrom signac.job import _StatePointDict\n"
+                "from synced_collections.backends import collection_json as cj\n"
+                "print(json.dumps([bool(c._threading_support_is_active) for c in (%s)]))" % ", ".join(_CLASSES))
+        out = subprocess.run([sys.executable, "-c", code], capture_output=True, text=True, timeout=300, check=True).stdout
+        _SHIPPED.append(json.loads(out.strip().splitlines()[-1]))
+    return _SHIPPED[0]
+
+
+def apply_threads(flags):
+    import signac
+    from signac.job import _StatePointDict
+    from synced_collections.backends import collection_json as cj
+
+    classes = (signac.JSONDict, cj.JSONAttrDict, cj.BufferedJSONAttrDict, cj.JSONDict, cj.BufferedJSONDict, _StatePointDict)
+    for cls, on in zip(classes, flags):
+        (cls.enable_multithreading if on else cls.disable_multithreading)()
 
 
 # ------------------------------------------------------------------ actors
@@ -71,6 +107,11 @@ def make_actor(root, script):
                 out.append(["doc", p.open_job(a[1]).doc()])
             elif k == "Len":
                 out.append(["num", len(p)])
+            elif k == "PDocSet":
+                p.doc[a[1]] = a[2]
+                out.append(["unit"])
+            elif k == "PDocRead":
+                out.append(["doc", p.doc()])
             elif k == "RmWs":
                 try:
                     os.rmdir(p.workspace)
@@ -87,6 +128,8 @@ def hook_filter(op, rel):
     if op not in KIND or rel is None:
         return False
     c = rel.split(os.sep)
+    if len(c) == 2 and c[0] == "p" and c[1].endswith(PDOCF):      # the project document and its temp files
+        return True
     return len(c) >= 2 and c[0] == "p" and c[1] == WSN
 
 
@@ -96,12 +139,14 @@ def build_template(scn, root):
     p = signac.init_project(path=os.path.join(root, "p"))
     if scn["pre"] == "empty":
         shutil.rmtree(p.workspace)
-    else:
+    else:                                   # "populated", "populated-pdoc"
         j = p.open_job(SP1).init()
         j.doc["k"] = 0
         jx = p.open_job(SPX).init()
         with open(jx.fn("x.txt"), "wb") as fh:
             fh.write(b"x")
+        if scn["pre"] == "populated-pdoc":
+            p.doc["pk"] = 0
 
 
 # ------------------------------------------------------------------ schedules
@@ -145,6 +190,11 @@ class Explorer(LockStep2):
     """One run follows a prefix of actor indices, then the default policy; it reports the alternatives it
     passed by (prefixes that lead to schedules not equivalent to this one)."""
 
+    por = True          # False: every pair of calls counts as dependent (plain enumeration of all interleavings)
+
+    def _dep(self, x, y):
+        return True if not self.por else dependent(x, y)
+
     def explore(self, prefix, sleep0=()):
         """Sleep-set exploration: [sleep0] are the actors that must not move after the prefix until a call
         dependent with their pending one has been made (their next call was explored in a sibling run)."""
@@ -157,7 +207,7 @@ class Explorer(LockStep2):
                 if pos == len(prefix) - 1:
                     c = call_of(pending[pick])
                     state["sleep"] = {x for x in sleep0 if x in active and x != pick
-                                      and not dependent(call_of(pending[x]), c)}
+                                      and not self._dep(call_of(pending[x]), c)}
                 return pick
             sleep = state["sleep"]
             cand = [b for b in active if b not in sleep]
@@ -171,10 +221,10 @@ class Explorer(LockStep2):
                 explored = [pick]
                 for b in cand[1:]:
                     cb = call_of(pending[b])
-                    sl = [x for x in list(sleep) + explored if x in active and not dependent(call_of(pending[x]), cb)]
+                    sl = [x for x in list(sleep) + explored if x in active and not self._dep(call_of(pending[x]), cb)]
                     alts.append((list(self._done) + [b], sl))
                     explored.append(b)
-            state["sleep"] = {x for x in sleep if x in active and not dependent(call_of(pending[x]), c)}
+            state["sleep"] = {x for x in sleep if x in active and not self._dep(call_of(pending[x]), c)}
             return pick
 
         res = self.run_policy(choose)
@@ -266,6 +316,10 @@ def coq_act(a):
         return "ALen"
     if k == "RmWs":
         return "ARmWs"
+    if k == "PDocSet":
+        return f"(APDocSet {Lit.raw(a[1])} {coq_json(a[2])})"
+    if k == "PDocRead":
+        return "APDocRead"
     raise AssertionError(a)
 
 
@@ -281,13 +335,20 @@ def tag_of(a):
     return "a%d_" % a
 
 
+def snapshot12(root):
+    """c11.snapshot plus the project document (and temp files of it) next to the workspace."""
+    from .c11 import relevant, scan_order
+    return [(c[:-1] + [norm_tmp(c[-1])], k, b) for c, k, b in scan_order(root)
+            if relevant(c) or (len(c) == 2 and c[1].endswith(PDOCF))]
+
+
 def one_run(scn, template, work, prefix, n, sleep0=()):
     root = os.path.join(work, "r%d" % n)
     shutil.copytree(template, root, symlinks=True)
-    from .c11 import snapshot
-    pre = snapshot(root)
+    pre = snapshot12(root)
     actors = [make_actor(root, s) for s in scn["scripts"]]
     ex = Explorer(root, actors, hook_filter=hook_filter, timeout=30.0)
+    ex.por = scn.get("por", True)
     res = ex.explore(prefix, sleep0)
     tags = [tag_of(i) for i in range(len(actors))]
     sigs = [sig_of(st, tags) for st in res["steps"]]
@@ -303,15 +364,18 @@ def one_run(scn, template, work, prefix, n, sleep0=()):
             m = _UUID.match(f)
             if m and m.group(0) in owner:
                 os.rename(os.path.join(dirpath, f), os.path.join(dirpath, "._TMP_" + tags[owner[m.group(0)]] + f[m.end():]))
-    snap, ws = observe(root)
+    _, ws = observe(root)
+    snap = snapshot12(root)
     shutil.rmtree(root, ignore_errors=True)
     return pre, res, sigs, snap, ws
 
 
 class Lit12(Lit):
     def name(self, s):
+        if s == PDOCF:
+            return "PDOCF"
         if s.startswith("._TMP_a"):
-            for base, coq in ((SPF, "SPF"), (DOCF, "DOCF")):
+            for base, coq in ((SPF, "SPF"), (DOCF, "DOCF"), (PDOCF, "PDOCF")):
                 for a in range(4):
                     if s == "._TMP_" + tag_of(a) + base:
                         return self.define("tmp_%d_%s" % (a, coq.lower()), "(TMPPFX ++ %s ++ %s)" % (Lit.raw(tag_of(a)), coq))
@@ -320,6 +384,8 @@ class Lit12(Lit):
     def content(self, name, data):
         for a in range(4):
             name = name.replace("._TMP_" + tag_of(a), "._TMP_")
+        if norm_tmp(name) in (PDOCF, "._TMP_" + PDOCF):       # parsed like a job document
+            name = DOCF
         return super().content(name, data)
 
 
@@ -351,8 +417,9 @@ def emit(scn, thr, pre, res, sigs, snap, ws, prefix):
            "steps": ["%d %s %s" % (a, k, "/".join(p1[2:])) for (a, k, p1, p2) in sigs],
            "final_tree": brief_tree(snap), "projects": brief_ws(ws)}
     desc = {"scn": scn, "prefix": order}
-    kinds = [scn["name"], "threads-on" if thr else "threads-off", "actors:%d" % nact]
-    return Case(coq, desc, obs=obs, nontrivial=nontrivial, key=json.dumps([scn["scripts"], scn["pre"], thr, order]),
+    kinds = [scn["name"]] + ([] if scn.get("por", True) else ["all-interleavings"]) + ["config-default" if scn.get("config") == "default" else ("threads-on" if thr else "threads-off"),
+             "actors:%d" % nact]
+    return Case(coq, desc, obs=obs, nontrivial=nontrivial, key=json.dumps([scn["scripts"], scn["pre"], thr, scn.get("config"), order]),
                 kinds=kinds, prelude=L.items())
 
 
@@ -375,7 +442,12 @@ def run_scenario(desc, work):
     logging.disable(logging.CRITICAL)
     import signac  # noqa: F401  (imported before forking)
     EXN.update(_exn_table())
-    set_threads(thr)
+    if scn.get("config") == "default":
+        # as shipped: nothing is switched on or off by the harness; the MODEL is the documented behaviour
+        # (temp file + os.replace for state points and documents), so thr stays True
+        apply_threads(shipped_threads())
+    else:
+        set_threads(thr)
     cases = []
     try:
         template = os.path.join(work, "template")
@@ -437,6 +509,16 @@ def scenarios():
     ]
 
 
+def doc_scenarios():
+    """A writer and a reader of ONE document in two processes; the document exists and is non-empty, so the old
+    content is observable.  Small enough to be enumerated exhaustively in quick."""
+    S, R = (lambda sp, k, v: ["DocSet", sp, k, v]), (lambda sp: ["DocRead", sp])
+    return [
+        {"name": "jobdoc-rw", "pre": "populated", "scripts": [[P(), S(SP1, "k", 1)], [P(), R(SP1)]]},
+        {"name": "projdoc-rw", "pre": "populated-pdoc", "scripts": [[P(), ["PDocSet", "pk", 1]], [P(), ["PDocRead"]]]},
+    ]
+
+
 def scenarios3():
     I, S, R, Ln = (lambda sp: ["Init", sp]), (lambda sp, k, v: ["DocSet", sp, k, v]), (lambda sp: ["DocRead", sp]), ["Len"]
     return [
@@ -455,6 +537,21 @@ def gen_inputs(tier, rng):
     for scn in scenarios3():
         descs.append({"scn": dict(scn, threads=True), "budget": 100 if quick else 2000, "seed": rng.randrange(10 ** 6),
                       "order": "random"})
+    # document write/read pairs across two processes: as shipped (whatever `import signac` sets up), and with
+    # thread support explicitly on / off (documents use write_concern: atomic either way); exhaustive (dfs)
+    for scn in doc_scenarios():
+        for cfg in ("default", True, False):
+            d = dict(scn, threads=(cfg is not False), name=scn["name"] + ("-default" if cfg == "default" else ("-on" if cfg else "-off")))
+            if cfg == "default":
+                d["config"] = "default"
+            if cfg == "default" or not quick:
+                # no reduction: the reader's calls at EVERY position between the writer's file-system calls
+                d["por"] = False
+            descs.append({"scn": d, "budget": 400 if quick else 4000, "seed": rng.randrange(10 ** 6), "order": "dfs"})
+    for name in ("doc-reader-writer", "init-vs-docset", "init-same-empty"):
+        scn = [s for s in scenarios() if s["name"] == name][0]
+        descs.append({"scn": dict(scn, threads=True, config="default", name=name + "-default"),
+                      "budget": 150 if quick else 3000, "seed": rng.randrange(10 ** 6), "order": "random"})
     for name in ("init-same-empty", "init-same-populated"):
         scn = [s for s in scenarios() if s["name"] == name][0]
         descs.append({"scn": dict(scn, threads=False, name=name + "-direct"), "budget": 100 if quick else 2500,
